@@ -378,3 +378,13 @@ var _ = pr.AutoF
 //@   let last = table.ColumnPositions[len(table.ColumnPositions)-1]
 //@   loop 1 step[ltr-spacing] len(table.ColumnPositions) == old(len(table.ColumnPositions)) + 1 && last == old(positionX) + borderSpacingX && positionX == last + width
 //@   loop 2 step[rtl-spacing] len(table.ColumnPositions) == old(len(table.ColumnPositions)) + 1 && last + width == old(positionX) - borderSpacingX && positionX == last
+
+// a spanning cell covers exactly its columns plus the border-spacing between them: its border box width
+// (content width + paddings and borders) is the sum of the widths of the spanned columns plus
+// (colspan - 1) border-spacings (CSS 2.1 §17.5, §17.6.1)
+//@ func tableLayout$1
+//@   props C13
+//@   modifies anything
+//@   unclaimed call-*-pre1 "preconditions of geometry readers and break classifiers on boxes under layout (resolved margins, validated break values, non-nil context): established by earlier layout steps, not tracked through the box tree"
+//@   loop 3 invariant width == borderSpacingX*real(cell.Colspan-1) - bordersPlusPadding + sum(spannedWidths, 0, rangeindex+1)
+//@   loop 3 exit[span-covers-columns] width + bordersPlusPadding == borderSpacingX*real(cell.Colspan-1) + sum(spannedWidths, 0, len(spannedWidths))
